@@ -241,15 +241,19 @@ func randomSequence(run *hx.Run, r *hx.Rng, n int) {
 	run.Case("rand:reset", "reset", "-")
 	next := 0
 	var joined []int
-	pick := func() int {
+	pick := func() int { // a connection that has joined at some point (it may have left again)
 		if len(joined) == 0 || r.Chance(1, 6) {
-			return r.Intn(next + 1)
+			return r.Intn(next)
 		}
 		return joined[r.Intn(len(joined))]
 	}
 	for k := 0; k < n; k++ {
 		var o string
-		switch c := r.Intn(30); {
+		c := r.Intn(30)
+		if next == 0 {
+			c = 0
+		}
+		switch {
 		case c < 7:
 			o = "join " + strconv.Itoa(next)
 			joined = append(joined, next)
@@ -516,7 +520,7 @@ func main() {
 		"leave 1", "players", "count", "join 0", "leave 1", "servers", "regsrv 3", "regsrv 3", "servers", "unregsrv 3",
 		"unregsrv 3", "servers", "sadd 0", "sadd 7", "srange", "slen", "discall", "players", "count", "srange", "discall"})
 	// DisconnectAll on its own with many players online (as found: fatal error in the process)
-	run.Case("conc:discallonce", "conc discallonce 5000", runChild("discallonce", 5000))
+	run.Case("conc:discallonce", "conc discallonce 3000", runChild("discallonce", 3000))
 
 	// ---- random sequences ----
 	for s, n := 0, run.Scale(150, 1500); s < n; s++ {
@@ -524,7 +528,7 @@ func main() {
 	}
 
 	// ---- concurrent stress (children) ----
-	iters := run.Scale(6000, 40000)
+	iters := run.Scale(2000, 20000)
 	for k, rounds := 0, run.Scale(1, 4); k < rounds; k++ {
 		for _, scn := range []string{"players", "discall", "srange", "servers"} {
 			run.Case("conc:"+scn, fmt.Sprintf("conc %s %d", scn, iters), runChild(scn, iters))
